@@ -253,6 +253,12 @@ func checkC06(c *Ctx, r *Report) {
 	// requiredness
 	checkRequiredness(c, r, "C06.f")
 	checkIsContextExact(c, r, "C06.a")
+
+	// helpers whose meaning the rules above take for granted
+	ruleHelperShape(c, r, "C06.f", helperShape{Fn: "generator/swagen/swagtool.IsFieldRequired", AllowedCalls: []string{"strings.Split"}, MustConsts: []string{",", "required"},
+		Why: "a field/parameter is required iff `required` is one of the comma-separated rules of its validate tag"})
+	ruleHelperShape(c, r, "C06.e", helperShape{Fn: "(definitions.RouteMetadata).GetValueReturnType", AllowedCalls: []string{"builtin.len"}, MustFields: []string{"Responses"}, MustConsts: []string{"1", "0"},
+		Why: "the value return type is Responses[0] exactly when the method returns (value, error)"})
 }
 
 // checkValidatorApplied: the validation converter is applied to the same schema with the
